@@ -33,10 +33,28 @@ Ring == << A("ring", "m"), R("ring") >>
 \* BEFORE fix D10: get_ttl kept the ValueRef of its lookup alive while store.expiration took the shard's read lock again
 GetTtlOld == << A("s1", "r"), A("same", "r"), R("same"), R("s1") >>
 
+\* NOT stretto's code but its CALLERS': a thread that keeps a ValueRef (a read guard) alive and calls a writing
+\* operation -- on another shard (two such threads deadlock crosswise) or on the same one (it deadlocks with itself).
+\* The catalogue above is deadlock-free only for callers that drop their guards before the next call: MC_Locks_guard.cfg
+\* makes that assumption visible (TLC must find the deadlock).
+HoldThenWrite == << A("s1", "r"), A("s2", "w"), A("em", "w"), R("em"), R("s2"), R("s1") >>
+HoldThenWriteSame == << A("s1", "r"), A("same", "w"), R("same"), R("s1") >>
+GuardMisuse == {HoldThenWrite}
+GuardMisuseSame == {HoldThenWriteSame}
+
 Catalogue == {Get, GetMut, Write, WriteVeto, Policy, ProcNew, ProcDel, Sweep, Clear, Ring}
 Witness == {GetTtlOld, Write}
 
 \* programs observed in the real code: one JSON record per distinct program, field ops = sequence of op tuples
 ToSetOfRecs == LET s == ndJsonDeserialize(IOEnv.PROGRAMS) IN { s[i] : i \in 1 .. Len(s) }
 Observed == { r.ops : r \in ToSetOfRecs }
+
+\* the catalogue is what the code does: every recorded program is a concatenation of the catalogue's atomic sections
+\* (a new nesting shape, or a lock class used in a new way, does not decompose)
+Atoms == { Get, GetMut, Write, Policy, Ring, << A("em", "w"), R("em") >> }
+RECURSIVE Decomp(_)
+Decomp(p) == \/ p = <<>>
+             \/ \E a \in Atoms : /\ Len(a) <= Len(p) /\ SubSeq(p, 1, Len(a)) = a
+                                  /\ Decomp(SubSeq(p, Len(a) + 1, Len(p)))
+ObservedKnown == \A p \in Observed : Decomp(p) \/ (PrintT(<<"UNKNOWN-LOCK-PROGRAM", p>>) /\ FALSE)
 =============================================================================
